@@ -100,9 +100,11 @@ FaceOK(ids, f) == /\ f[1] \in ids /\ f[2] \in ids /\ f[3] \in ids
 ValidFaces(ids, F) == \A i \in DOMAIN F : Len(F[i]) = 3 /\ FaceOK(ids, F[i])
 DirEdges(F) == {<<F[i][1], F[i][2]>> : i \in DOMAIN F} \cup {<<F[i][2], F[i][3]>> : i \in DOMAIN F}
                \cup {<<F[i][3], F[i][1]>> : i \in DOMAIN F}
-EdgeOnce(F) == Cardinality(DirEdges(F)) = 3 * Len(F)          \* no directed edge twice
-EdgeTwin(F) == LET E == DirEdges(F) IN \A e \in E : <<e[2], e[1]>> \in E
-ClosedManifold(ids, F) == ValidFaces(ids, F) /\ EdgeOnce(F) /\ EdgeTwin(F)
+EdgeOnceE(E, F) == Cardinality(E) = 3 * Len(F)                \* no directed edge twice
+EdgeTwinE(E) == \A e \in E : <<e[2], e[1]>> \in E               \* the reverse of every edge is present
+EdgeOnce(F) == EdgeOnceE(DirEdges(F), F)
+EdgeTwin(F) == EdgeTwinE(DirEdges(F))
+ClosedManifold(ids, F) == ValidFaces(ids, F) /\ LET E == DirEdges(F) IN EdgeOnceE(E, F) /\ EdgeTwinE(E)
 
 (* ---- orientation ---------------------------------------------------------------- *)
 Rotations(f) == {<<f[1], f[2], f[3]>>, <<f[2], f[3], f[1]>>, <<f[3], f[1], f[2]>>}
@@ -167,14 +169,31 @@ TransW(d) == ((d + 1) % 3) + 1
 Orient2(a, b, x, u, w) == (b[u] - a[u]) * (x[w] - a[w]) - (b[w] - a[w]) * (x[u] - a[u])
 Min3(x, y, z) == IF x <= y THEN (IF x <= z THEN x ELSE z) ELSE (IF y <= z THEN y ELSE z)
 Max3(x, y, z) == IF x >= y THEN (IF x >= z THEN x ELSE z) ELSE (IF y >= z THEN y ELSE z)
-(* status of one face for the ray from x: 0 = missed, 1 = crossed, 2 = degenerate contact *)
-FaceRay(V, f, x, d, s) ==
-  LET a == V[f[1]]  b == V[f[2]]  c == V[f[3]]
-      u == TransU(d)  w == TransW(d)
-  IN IF \/ x[u] < Min3(a[u], b[u], c[u]) \/ x[u] > Max3(a[u], b[u], c[u])
-        \/ x[w] < Min3(a[w], b[w], c[w]) \/ x[w] > Max3(a[w], b[w], c[w])
+(* bounding boxes of the faces, computed once per mesh: <<min1, max1, min2, max2, min3, max3>>;  *)
+(* `\o <<>>` makes TLC evaluate the whole sequence once instead of once per application        *)
+FaceBoxes(V, F) ==
+  [i \in 1..Len(F) |->
+     LET a == V[F[i][1]]  b == V[F[i][2]]  c == V[F[i][3]]
+     IN <<Min3(a[1], b[1], c[1]), Max3(a[1], b[1], c[1]), Min3(a[2], b[2], c[2]), Max3(a[2], b[2], c[2]),
+          Min3(a[3], b[3], c[3]), Max3(a[3], b[3], c[3])>>] \o <<>>
+RECURSIVE ExtremeOf(_, _, _, _)      \* least (k odd) / greatest (k even) k-th entry of FB[lo..hi]
+ExtremeOf(FB, k, lo, hi) ==
+  IF lo = hi THEN FB[lo][k]
+  ELSE LET m == (lo + hi) \div 2
+           x == ExtremeOf(FB, k, lo, m)
+           y == ExtremeOf(FB, k, m + 1, hi)
+       IN IF k % 2 = 1 THEN (IF x <= y THEN x ELSE y) ELSE (IF x >= y THEN x ELSE y)
+MeshBox(FB) == [k \in 1..6 |-> ExtremeOf(FB, k, 1, Len(FB))] \o <<>>      \* FB non-empty
+InBoxOf(mb, x) == \A a \in Axes : mb[2 * a - 1] <= x[a] /\ x[a] <= mb[2 * a]
+(* status of one face for the ray from x along axis d with sign s:                      *)
+(* 0 = missed, 1 = crossed, 2 = degenerate contact (edge, vertex or in-plane)           *)
+FaceRay(V, f, fb, x, d, s) ==
+  LET u == TransU(d)  w == TransW(d)
+  IN IF \/ x[u] < fb[2 * u - 1] \/ x[u] > fb[2 * u] \/ x[w] < fb[2 * w - 1] \/ x[w] > fb[2 * w]
+        \/ (s > 0 /\ fb[2 * d] < x[d]) \/ (s < 0 /\ fb[2 * d - 1] > x[d])
      THEN 0
-     ELSE LET d1 == Orient2(a, b, x, u, w)
+     ELSE LET a == V[f[1]]  b == V[f[2]]  c == V[f[3]]
+              d1 == Orient2(a, b, x, u, w)
               d2 == Orient2(b, c, x, u, w)
               d3 == Orient2(c, a, x, u, w)
               pos == d1 > 0 \/ d2 > 0 \/ d3 > 0
@@ -187,15 +206,16 @@ FaceRay(V, f, x, d, s) ==
                       h == nu * (x[u] - a[u]) + nw * (x[w] - a[w]) + nd * (x[d] - a[d])
                   IN IF h = 0 THEN 2
                      ELSE IF (h > 0) = ((nd > 0) = (s > 0)) THEN 0 ELSE 1
-RayParity(V, F, x, d, s) ==           \* 0 / 1, or -1 when some contact is degenerate
-  LET st == [i \in DOMAIN F |-> FaceRay(V, F[i], x, d, s)]
-  IN IF \E i \in DOMAIN F : st[i] = 2 THEN -1
-     ELSE Cardinality({i \in DOMAIN F : st[i] = 1}) % 2
-RECURSIVE InsideFrom(_, _, _, _)
-InsideFrom(V, F, x, k) == IF k > Len(RayDirs) THEN -1
-                          ELSE LET r == RayParity(V, F, x, RayDirs[k][1], RayDirs[k][2])
-                               IN IF r >= 0 THEN r ELSE InsideFrom(V, F, x, k + 1)
-InsideMesh(V, F, x) == InsideFrom(V, F, x, 1)       \* 1 inside, 0 outside, -1 undecidable
+RayParity(V, F, FB, x, d, s) ==       \* 0 / 1, or -1 when some contact is degenerate
+  LET st == [i \in 1..Len(F) |-> FaceRay(V, F[i], FB[i], x, d, s)] \o <<>>
+  IN IF \E i \in DOMAIN st : st[i] = 2 THEN -1
+     ELSE Cardinality({i \in DOMAIN st : st[i] = 1}) % 2
+RECURSIVE InsideFrom(_, _, _, _, _)
+InsideFrom(V, F, FB, x, k) == IF k > Len(RayDirs) THEN -1
+                              ELSE LET r == RayParity(V, F, FB, x, RayDirs[k][1], RayDirs[k][2])
+                                   IN IF r >= 0 THEN r ELSE InsideFrom(V, F, FB, x, k + 1)
+(* 1 inside, 0 outside, -1 undecidable; a point outside the mesh's bounding box is outside *)
+InsideMesh(V, F, FB, mb, x) == IF ~InBoxOf(mb, x) THEN 0 ELSE InsideFrom(V, F, FB, x, 1)
 
 (* ---- the cell sweep --------------------------------------------------------------- *)
 (* Marching cubes visits the cells in order and emits, for each cell, faces   *)
